@@ -9,8 +9,8 @@ from concurrent.futures import ThreadPoolExecutor
 import common as c
 
 
-def observe(binary, r):
-    args = [] if r is None else ["--max-drift-rate", str(r)]
+def observe(binary, r, extra=()):
+    args = list(extra) + ([] if r is None else ["--max-drift-rate", str(r)])
     res = c.run_daemon_in_namespace(binary, args)
     if res["segment"]:
         b = bytes.fromhex(res["segment"])
@@ -59,6 +59,9 @@ def published_part(res):
             if r[5] != d:
                 bad.append({"case": ln, "impl": o, "why": ["record %d carries max drift %d ppb, configured %d ppb (status %d)" % (k, r[5], d, r[6])]})
                 break
+    # a second instance with another rate over the segment the first one left
+    _, lbad = _updater.run_two_lives("C08", res, rng, c.build_harness("debug")[0], 60 if res.tier == "quick" else 2000)
+    bad += [b for b in lbad if any("drift" in w for w in b["why"])]
     if bad:
         res.violation({"property": "C19", "kind": "history", "case": bad[0], "others": [b["case"][:200] for b in bad[1:4]],
                        "predicate": "every published record carries exactly the configured rate x 1000", "how_to_replay": "./check C08 --replay <this file>"})
@@ -89,6 +92,23 @@ def run(res, proofs_ok, proofs_why, only=None):
         why = judge(r, out)
         if why:
             bad.append({"rate_ppm": r, "impl": out, "model": m, "why": why})
+    # the rate together with the other options, and a restart with another rate over the segment an
+    # earlier instance left: what is published is still exactly the rate given to THIS instance
+    if only is None:
+        combos = [(50, ("--fake-iface", "fake0", "--phc-ref-id", "PHC0", "--phc-interface", "fake0")),
+                  (4294967, ("--fake-iface", "fake0", "-r", "PHC0", "-i", "fake0")),
+                  (None, ("--fake-iface", "fake0", "-r", "PHC0", "-i", "fake0")),
+                  (200, ("--first", "--max-drift-rate 50")), (None, ("--first", "--max-drift-rate 7")),
+                  (3, ("--first", "-m 4294967")), (77, ("--json-output",))]
+        with ThreadPoolExecutor(max_workers=8) as ex:
+            cobs = list(ex.map(lambda rc: observe(binary, rc[0], rc[1]), combos))
+        for (r, extra), (out, raw) in zip(combos, cobs):
+            res.evaluations += 1
+            res.nontriv((r, extra))
+            res.count("with-other-options-or-after-an-earlier-instance")
+            why = judge(r, out)
+            if why:
+                bad.append({"rate_ppm": r, "other_arguments": list(extra), "impl": out, "why": why, "stderr": raw.get("stderr_tail", "")[-200:]})
     res.samples = [{"rate_ppm": r, "impl": o[0], "model": m, "waited_s": o[1].get("waited_s")} for r, o, m in list(zip(vals, obs, model))[:8]]
     res.traces_validated = len(vals) - len(diffs)
     res.oblige("correspondence:clockbound --max-drift-rate (release binary) vs Cli.cli_ppb", not diffs)
